@@ -43,6 +43,7 @@ pub fn exec_oracle(kind: &str, fields: &[&str]) -> String {
         "S_C06" => oracle_c06(fields),
         "S_C07T" => oracle_c07t(fields),
         "S_C18S" => oracle_c18s(fields),
+        "S_C18F" => oracle_c18f(fields),
         "S_C19U" => oracle_c19u(fields),
         "S_C16E" => {
             let def = unescape(fields[0]);
@@ -1136,6 +1137,18 @@ fn oracle_c18(fields: &[&str]) -> String {
         let made_one = handles.len() > handles_before;
         handles_before = handles.len();
         if parts[0] == "O" && made_one {
+            // a user-registered operator that refuses the definition: no handle, and no falling
+            // through to a macro or built-in of the same name
+            let def = unescape(parts[1]);
+            if !def.contains('|') && !def.contains('<') && !def.contains('>') {
+                let words: Vec<&str> = def.split_whitespace().collect();
+                let name = words.iter().find(|w| !["inv", "omit_fwd", "omit_inv"].contains(w)).copied().unwrap_or("");
+                if !name.contains(':') && !name.contains('=') && users.get(name).map(|t| t == "u:needv").unwrap_or(false) && !words.iter().any(|w| w.starts_with("v=")) {
+                    return Some(format!("{:?} was instantiated although the user-registered operator {} refuses it", def, name));
+                }
+            }
+        }
+        if parts[0] == "O" && made_one {
             let def = unescape(parts[1]);
             if !def.contains('|') && !def.contains('<') && !def.contains('>') {
                 let words: Vec<&str> = def.split_whitespace().collect();
@@ -1143,7 +1156,7 @@ fn oracle_c18(fields: &[&str]) -> String {
                 let inv = words.iter().any(|w| *w == "inv" || *w == "inv=true");
                 if !name.contains(':') && !name.contains('=') {
                     if let Some(tag) = users.get(name) {
-                        let delta = if tag == "u:add2" { 2.0 } else { 3.0 } * if inv { -1.0 } else { 1.0 };
+                        let delta = if tag == "u:add2" || tag == "u:needv" { 2.0 } else { 3.0 } * if inv { -1.0 } else { 1.0 };
                         let mut d = vec![Coor4D([10., 0., 0., 0.])];
                         let h = *handles.last().unwrap();
                         let _ = ctx.apply(h, Fwd, &mut d);
@@ -1189,6 +1202,35 @@ fn oracle_c18(fields: &[&str]) -> String {
         Some(p) => format!("oracle FAIL {p}"),
         None => "oracle pass".to_string(),
     }
+}
+
+/// run-time registrations take precedence over file based macros, also after the file version was used
+fn oracle_c18f(fields: &[&str]) -> String {
+    let spec = crate::exec::CtxSpec { kind: fields[0].to_string(), resources: vec![], users: vec![] };
+    let name = unescape(fields[1]);
+    let body = unescape(fields[2]);
+    crate::exec::with_ctx(&spec, |ctx| {
+        let probe = vec![Coor4D([1., 2., 3., 4.])];
+        let run = |ctx: &dyn Context, h: OpHandle| -> Vec<Coor4D> {
+            let mut d = probe.clone();
+            let _ = ctx.apply(h, Fwd, &mut d);
+            d
+        };
+        let Ok(before) = ctx.op(&name) else { return format!("oracle skip {name} is not a file based macro here") };
+        let from_file = run(ctx, before);
+        ctx.register_resource(&name, &body);
+        let Ok(direct) = ctx.op(&body) else { return "oracle skip body not instantiable".to_string() };
+        let want = run(ctx, direct);
+        let Ok(after) = ctx.op(&name) else { return format!("oracle FAIL {name} cannot be instantiated after registering it as {:?}", body) };
+        let got = run(ctx, after);
+        if !same_bits(&got[0], &want[0]) {
+            return format!("oracle FAIL {name} registered at run time as {:?} after a first use still gives {} (the registration gives {})", body, dump_data(&got), dump_data(&want));
+        }
+        if !same_bits(&run(ctx, before)[0], &from_file[0]) {
+            return format!("oracle FAIL the handle of {name} made before the registration changed its behaviour");
+        }
+        "oracle pass".to_string()
+    })
 }
 
 fn oracle_c18r(fields: &[&str]) -> String {
